@@ -36,9 +36,18 @@ def compare(c_exe, lean_exe, lines):
 
 
 def valid(lean_exe, lines):
-    """A sequence is valid input iff the model executes it without a fault (the C side would abort)."""
+    """A sequence is valid input iff the model executes it without a fault (the C side would abort) and the model's own
+    answers are accepted by the specification monitor (this rules out sequences that violate a documented precondition the
+    model does not fault on, e.g. a caller-supplied key that is already live)."""
     rc, o, e = vlib.run_driver(lean_exe, "\n".join(lines) + "\n")
-    return rc == 0 and not any(l.startswith("fault") or l.startswith("bad-op") or l.startswith("no-heap") for l in o.splitlines())
+    out = [l for l in o.splitlines() if not l.startswith(" ") and not l.startswith("state ")]
+    if rc != 0 or any(l.startswith("fault") or l.startswith("bad-op") or l.startswith("no-heap") for l in out):
+        return False
+    spec = vlib.lean_exe("hhspec")
+    if os.path.exists(spec):
+        ok, msg = judge(spec, lines, out)
+        return ok
+    return True
 
 
 def shrink(c_exe, lean_exe, lines, budget=400):
